@@ -91,6 +91,7 @@ type World struct {
 	Stats map[string]int
 	// Obs, when non-nil, receives every observation (for metamorphic comparisons)
 	Obs             *[]string
+	noHook          bool
 	lastReadBackLen int
 
 	removedInGC int64
@@ -123,6 +124,23 @@ func (w *World) setCfg() {
 		Storage: config.Storage{DbPath: filepath.Join(w.Dir, "db"), MaxDirCount: w.Case.MaxDir, RootDirs: roots, GCPeriod: time.Hour},
 		WPool:   config.WPool{NumWorkers: 2, SendDuration: time.Millisecond},
 	}
+}
+
+// NewWorldNoHook is NewWorld without the hook that counts collector removals (engine E4 installs
+// its own hook handler).
+func NewWorldNoHook(c Case, r *ev.Result) (*World, error) {
+	w := newWorldStruct(c, r)
+	w.noHook = true
+	w.Dir = filepath.Join(dbRoot(), fmt.Sprintf("w%d-%d", os.Getpid(), dirCounter.Add(1)))
+	if err := os.MkdirAll(w.Dir, 0o755); err != nil {
+		return nil, err
+	}
+	w.setCfg()
+	if err := w.open(); err != nil {
+		os.RemoveAll(w.Dir)
+		return nil, err
+	}
+	return w, nil
 }
 
 // NewWorld creates fresh directories and opens the database.
@@ -166,7 +184,9 @@ func (w *World) open() error {
 
 // Close closes the database and removes its directories.
 func (w *World) Close() {
-	verifhook.SetPoint(nil)
+	if !w.noHook {
+		verifhook.SetPoint(nil)
+	}
 	w.closeDB()
 	os.RemoveAll(w.Dir)
 }
